@@ -3,14 +3,19 @@
 (* Step matching and dispatch of behave (C11).                             *)
 (*                                                                         *)
 (* Abstract patterns are sequences of  Lit(word) | Fld(kind, name)  with   *)
-(* kind in {any, int, word, float, custom, many, optional}; step texts are *)
-(* sequences of tokens (words); words are sequences of one-character       *)
-(* strings (TLC strings are atomic).  Match is the anchored, case          *)
-(* sensitive, leftmost-shortest assignment of token spans to the fields    *)
-(* (exactly the backtracking order of the regular expressions that the     *)
-(* parse, cfparse, re and re0 matchers end up with: untyped fields are     *)
+(* kind in {any, int, word, float, custom, falsy, many, optional, many0};  *)
+(* step texts are sequences of tokens (words); words are sequences of      *)
+(* one-character strings (TLC strings are atomic).  Match is the anchored, *)
+(* case sensitive, leftmost-shortest assignment of token spans to the      *)
+(* fields (exactly the backtracking order of the regular expressions that  *)
+(* the parse, cfparse, re and re0 matchers end up with: untyped fields are *)
 (* lazy and span >= 1 whole tokens, typed fields take exactly one token of *)
-(* their class, an optional field greedily takes one token or none).       *)
+(* their class, an optional / many0 field -- the cfparse cardinalities     *)
+(* "zero or one" and "zero or more" -- greedily takes one token or none).  *)
+(* "falsy" is a custom type whose converter yields None, 0, '', False and  *)
+(* [] : the step function must receive exactly the converter's result,     *)
+(* also when it is not truthy; likewise None / [] of an absent cardinality *)
+(* field.                                                                  *)
 (*                                                                         *)
 (* The registry is a state machine over                                    *)
 (*   st = [steps : type -> list of entries, current, default matcher]      *)
@@ -74,13 +79,24 @@ IsFloatTok(t) == LET b == Unsigned(t)
                        IN d < Len(b) /\ \A k \in DOMAIN b : k = d \/ b[k] \in Digits
 IsWordTok(t)  == t # <<>> /\ \A k \in DOMAIN t : t[k] \in WordChars
 IsManyTok(t)  == t # <<>> /\ LET parts == SplitOn(t, ",", <<>>, <<>>) IN \A k \in DOMAIN parts : parts[k] \in Colours
-FieldKinds == {"any", "int", "word", "float", "custom", "many", "optional"}
+\* the custom type Falsy of the driver: none -> None, zero -> 0, blank -> '', no -> False, nil -> []
+TNone  == <<"n","o","n","e">>
+TZero  == <<"z","e","r","o">>
+TBlank == <<"b","l","a","n","k">>
+TNo    == <<"n","o">>
+TNil   == <<"n","i","l">>
+FalsyToks == {TNone, TZero, TBlank, TNo, TNil}
+FieldKinds == {"any", "int", "word", "float", "custom", "falsy", "many", "optional", "many0"}
+\* cardinality fields that may take nothing; their rendering owns the blank in front of them
+FusedKinds == {"optional", "many0"}
 InClass(kind, t) == CASE kind = "any"      -> t # <<>>
                       [] kind = "int"      -> IsIntTok(t)
                       [] kind = "word"     -> IsWordTok(t)
                       [] kind = "float"    -> IsFloatTok(t)
                       [] kind = "custom"   -> t \in Colours
                       [] kind = "optional" -> t \in Colours
+                      [] kind = "many0"    -> t \in Colours
+                      [] kind = "falsy"    -> t \in FalsyToks
                       [] kind = "many"     -> IsManyTok(t)
                       [] OTHER -> FALSE
 
@@ -101,6 +117,9 @@ VInt(n)   == [ty |-> "int",   s |-> <<>>, i |-> n, l |-> <<>>]
 VFloat(m) == [ty |-> "float", s |-> <<>>, i |-> m, l |-> <<>>]
 VList(l)  == [ty |-> "list",  s |-> <<>>, i |-> 0, l |-> l]
 VNone     == [ty |-> "none",  s |-> <<>>, i |-> 0, l |-> <<>>]
+VBool(b)  == [ty |-> "bool",  s |-> <<>>, i |-> IF b THEN 1 ELSE 0, l |-> <<>>]
+FalsyVal(tok) == CASE tok = TNone -> VNone [] tok = TZero -> VInt(0) [] tok = TBlank -> VStr(<<>>)
+                   [] tok = TNo -> VBool(FALSE) [] OTHER -> VList(<<>>)
 ParseKinds == {"parse", "cfparse"}          \* matchers with type converters
 RegexKinds == {"re", "re0"}                 \* no conversion: the value is the matched text
 MatcherKinds == ParseKinds \cup RegexKinds
@@ -113,6 +132,8 @@ Conv(mk, fk, tok, orig) ==
           [] fk = "float"    -> VFloat(MilliOf(tok))
           [] fk = "custom"   -> VStr(UpperS(tok))
           [] fk = "optional" -> VStr(UpperS(tok))
+          [] fk = "many0"    -> VList(<<UpperS(tok)>>)
+          [] fk = "falsy"    -> FalsyVal(tok)
           [] fk = "many"     -> LET parts == SplitOn(tok, ",", <<>>, <<>>) IN VList([k \in DOMAIN parts |-> UpperS(parts[k])])
           [] OTHER           -> VStr(orig)
 
@@ -124,8 +145,8 @@ Fields(p)    == SelectSeq(p, IsField)
 \* which matcher kinds can express the pattern (many/optional need cfparse cardinality fields or a regex;
 \* the fused rendering of an optional field needs a predecessor)
 Renderable(p, mk) == /\ p # <<>>
-                     /\ p[1].k # "optional"
-                     /\ mk = "parse" => \A i \in DOMAIN p : p[i].k \notin {"many", "optional"}
+                     /\ p[1].k \notin FusedKinds
+                     /\ mk = "parse" => \A i \in DOMAIN p : p[i].k \notin {"many", "optional", "many0"}
 
 \* ---------------------------------------------------------------- concrete pattern texts
 ColourAlt == <<"r","e","d","|","g","r","e","e","n","|","b","l","u","e">>
@@ -138,6 +159,7 @@ ReBody(fk) == CASE fk = "any"    -> <<".","+","?">>
                 [] fk = "float"  -> <<"[","-","+","]","?","\\","d","*","\\",".","\\","d","+">>
                 [] fk = "custom" -> ColourAlt
                 [] fk = "many"   -> ManyRe
+                [] fk = "falsy"  -> <<"n","o","n","e","|","z","e","r","o","|","b","l","a","n","k","|","n","o","|","n","i","l">>
                 [] OTHER         -> ColourAlt
 ParseSpec(fk) == CASE fk = "any"    -> <<"}">>
                    [] fk = "int"    -> <<":","d","}">>
@@ -145,14 +167,16 @@ ParseSpec(fk) == CASE fk = "any"    -> <<"}">>
                    [] fk = "float"  -> <<":","f","}">>
                    [] fk = "custom" -> <<":","C","o","l","o","u","r","}">>
                    [] fk = "many"   -> <<":","C","o","l","o","u","r","+","}">>
+                   [] fk = "falsy"  -> <<":","F","a","l","s","y","}">>
+                   [] fk = "many0"  -> <<":","S","p","C","o","l","o","u","r","*","}">>
                    [] OTHER         -> <<":","S","p","C","o","l","o","u","r","?","}">>
 \* one element with its separator: a blank before every element but the first; an optional field swallows
 \* its blank ("go{c:SpColour?} now", "go(?: (?P<c>red|green|blue))? now")
 Piece(e, mk, first) ==
    LET sp == IF first THEN <<>> ELSE <<" ">> IN
    IF e.k = "lit" THEN sp \o e.w
-   ELSE IF mk \in ParseKinds THEN (IF e.k = "optional" THEN <<>> ELSE sp) \o <<"{">> \o e.name \o ParseSpec(e.k)
-   ELSE IF e.k = "optional" THEN <<"(","?",":"," ">> \o Group(e.name, ColourAlt) \o <<")","?">>
+   ELSE IF mk \in ParseKinds THEN (IF e.k \in FusedKinds THEN <<>> ELSE sp) \o <<"{">> \o e.name \o ParseSpec(e.k)
+   ELSE IF e.k \in FusedKinds THEN <<"(","?",":"," ">> \o Group(e.name, ColourAlt) \o <<")","?">>
    ELSE sp \o Group(e.name, ReBody(e.k))
 Render(p, mk) == LET body == Flat([i \in DOMAIN p |-> Piece(p[i], mk, i = 1)])
                  IN IF mk = "re0" THEN <<"^">> \o body \o <<"$">> ELSE body
@@ -167,8 +191,8 @@ MatchFrom(p, toks, i, j) ==
    ELSE LET e == p[i] IN
         IF e.k = "lit" THEN (IF j <= Len(toks) /\ toks[j] = e.w THEN MatchFrom(p, toks, i + 1, j + 1) ELSE Fail)
         ELSE IF e.k = "any" THEN AnyFrom(p, toks, i, j, j)
-        ELSE IF e.k = "optional" THEN
-             LET with == IF j <= Len(toks) /\ InClass("optional", toks[j])
+        ELSE IF e.k \in FusedKinds THEN
+             LET with == IF j <= Len(toks) /\ InClass(e.k, toks[j])
                          THEN Cons([f |-> j, t |-> j], MatchFrom(p, toks, i + 1, j + 1)) ELSE Fail
              IN IF with.ok THEN with ELSE Cons([f |-> j, t |-> j - 1], MatchFrom(p, toks, i + 1, j))
         ELSE IF j <= Len(toks) /\ InClass(e.k, toks[j]) THEN Cons([f |-> j, t |-> j], MatchFrom(p, toks, i + 1, j + 1))
@@ -190,15 +214,17 @@ TokEnd(toks, j) == IF j < 1 THEN 0 ELSE TokStart(toks, j) + Len(toks[j])
 NoChars == <<>>
 Arg(start, end, hasorig, orig, name, val) ==
    [start |-> start, end |-> end, has_orig |-> hasorig, orig |-> orig, has_name |-> name # <<>>, name |-> name, val |-> val]
+\* what the cardinality converter of cfparse yields for a field that took nothing: ? -> None, * -> []
+AbsentVal(fk) == IF fk = "many0" THEN VList(<<>>) ELSE VNone
 \* the Argument the matcher kind mk reports for field e with token span sp
 ArgOf(e, mk, toks, sp) ==
    LET chars == Join(toks)
        absent == sp.t < sp.f
-   IN IF e.k = "optional" /\ absent THEN
+   IN IF e.k \in FusedKinds /\ absent THEN
            (IF mk \in RegexKinds THEN Arg(0 - 1, 0 - 1, FALSE, NoChars, e.name, VNone)     \* group did not participate
-            ELSE Arg(TokEnd(toks, sp.f - 1), TokEnd(toks, sp.f - 1), TRUE, NoChars, e.name, VNone))
+            ELSE Arg(TokEnd(toks, sp.f - 1), TokEnd(toks, sp.f - 1), TRUE, NoChars, e.name, AbsentVal(e.k)))
       ELSE LET s0 == TokStart(toks, sp.f)
-               s  == IF e.k = "optional" /\ mk \in ParseKinds THEN s0 - 1 ELSE s0         \* the blank belongs to SpColour
+               s  == IF e.k \in FusedKinds /\ mk \in ParseKinds THEN s0 - 1 ELSE s0         \* the blank belongs to SpColour
                en == TokEnd(toks, sp.t)
                orig == SubSeq(chars, s + 1, en)
                tok  == SubSeq(chars, s0 + 1, en)
